@@ -111,6 +111,7 @@ def run(ctx, replay):
         for st in s["steps"]:
             n += 1
             ctx.distinct.add(vlib.json.dumps([st["layers"], st["script"]["status"], st["script"]["flush"], st["script"]["hijack"]]))
+    ctx.extra["exchanges"] = n
     ctx.samples.append({"scenario": {"steps": scs[-1]["steps"][:2]}, "recorded_events": trs[scs[-1]["id"]][1:3]})
     return vlib.finish(ctx, "model_checking",
                        "program = stack of middlewares (with repetition, at most one layer configured to intervene) x handler script "
